@@ -454,8 +454,10 @@ def check(prop, tier, seed, jobs):
     }
     if crashes:
         evidence['coverage']['checker_crashes'] = [c['crash'][:600] for c in crashes]
-    # evidence describes /repo itself; a run against a scratch copy (QSTRADER_ROOT) writes its record next to the replays instead
-    edir = 'evidence' if os.path.realpath(os.environ.get('QSTRADER_ROOT', '/repo')) == '/repo' else os.path.join('replays', '_scratch_evidence')
+    # evidence describes /repo itself; a run against a scratch copy (QSTRADER_ROOT) or by the seeded-change tools
+    # (PYVC_SCRATCH_EVIDENCE=1, /repo temporarily patched) writes its record next to the replays instead
+    edir = 'evidence' if (os.path.realpath(os.environ.get('QSTRADER_ROOT', '/repo')) == '/repo' and not os.environ.get('PYVC_SCRATCH_EVIDENCE')) \
+        else os.path.join('replays', '_scratch_evidence')
     os.makedirs(os.path.join(VERIF, edir), exist_ok=True)
     with open(os.path.join(VERIF, edir, prop + '.json'), 'w') as f:
         json.dump(evidence, f, indent=1, default=str)
